@@ -79,13 +79,16 @@ class Ctx:
             return True
         if z3.is_false(t):
             return False
+        # NB: z3 recycles AST ids once a term is garbage, so every table keyed by get_id() keeps
+        # a reference to the term itself
         key = t.get_id()
-        if key in self.memo:
-            return self.memo[key]
+        hit = self.memo.get(key)
+        if hit is not None and hit[0].eq(t):
+            return hit[1]
         if mentions_uninit(t):
             # control flow that depends on uninitialised memory: never fork on it, remember it
             self.uninit_ctrl.append(t)
-            self.memo[key] = True
+            self.memo[key] = (t, True)
             return True
         if len(self.taken) >= self.max_decisions:
             self.flag('decision budget exhausted')
@@ -97,7 +100,7 @@ class Ctx:
             c = t if v else z3.Not(t)
             self.solver.add(c)
             self.pc.append(c)
-            self.memo[key] = v
+            self.memo[key] = (t, v)
             return v
         st = self.check(t)
         sf = self.check(z3.Not(t))
@@ -122,7 +125,7 @@ class Ctx:
         if ft and ff:
             self.solver.add(c)
             self.pc.append(c)
-        self.memo[key] = v
+        self.memo[key] = (t, v)
         return v
 
     def realise_int(self, t, limit=64):
@@ -218,15 +221,18 @@ def mentions_uninit(t):
         if i in seen:
             continue
         seen.add(i)
-        if i in _uninit_cache:
-            if _uninit_cache[i]:
+        c = _uninit_cache.get(i)
+        if c is not None and c[0].eq(e):
+            if c[1]:
                 return True
             continue
         if z3.is_const(e) and e.decl().kind() == z3.Z3_OP_UNINTERPRETED:
             if e.decl().name().startswith(_UNINIT_PREFIX):
                 return True
         todo.extend(e.children())
-    _uninit_cache[t.get_id()] = False
+    if len(_uninit_cache) > 200000:
+        _uninit_cache.clear()
+    _uninit_cache[t.get_id()] = (t, False)
     return False
 
 
